@@ -66,7 +66,8 @@ def obligations_plumbing(ctx, h):
         rets = [p for p in paths if p.kind == 'return']
         ok = len(rets) >= 1
         why = ''
-        for p in rets:
+        pcrel_m = m in ('c.j', 'c.jal', 'c.beqz', 'c.bnez')
+        for pi, p in enumerate(rets):
             item, args, line = p.value
             if args is None or len(args) != n or item.fields.get('name') != m:
                 ok, why = False, 'item %r' % (item,)
@@ -74,10 +75,23 @@ def obligations_plumbing(ctx, h):
             for a, t, r in zip(args, toks, roles):
                 is_imm = (r.startswith('imm') or r == 'csr') if sp is rv32 else (r == 'imm')
                 if is_imm:
-                    # expression parsed from exactly this token
-                    good = isinstance(a, I.SObj) and (a.cls.name == 'SymExpr' or (a.cls.name == 'Offset' and a.fields.get('reference') is t))
-                    if not good:
-                        ok, why = False, 'operand %s is %r' % (r, a)
+                    # the expression parsed from exactly this token.  Only a pc-relative operand (branch / jump target) that is
+                    # not a number is a location: %offset(token); every other immediate is the token's own value, never wrapped
+                    pcrel = r in ('immB', 'immJ') or pcrel_m
+                    is_int = z3.Bool('is_int_%s' % t.t)
+                    if isinstance(a, I.SObj) and a.cls.name == 'SymExpr':
+                        if pcrel:
+                            ctx.add(Obligation('asm.parse_item[%s]/a-name-as-branch-target-is-a-location#%d' % (m, pi), list(p.pc), is_int, 'INT',
+                                               func='asm.parse_item', kind='post', cover=False,
+                                               meta={'replay': ('encoder_text', {'m': m}), 'key': 'parse:%s:target' % m,
+                                                     'what': 'parse_item(%s): a non-numeric jump / branch operand is not taken as %%offset(name)' % m}))
+                    elif isinstance(a, I.SObj) and a.cls.name == 'Offset' and a.fields.get('reference') is t and pcrel:
+                        ctx.add(Obligation('asm.parse_item[%s]/a-numeric-branch-offset-is-taken-literally#%d' % (m, pi), list(p.pc), z3.Not(is_int), 'INT',
+                                           func='asm.parse_item', kind='post', cover=False,
+                                           meta={'replay': ('encoder_text', {'m': m}), 'key': 'parse:%s:numeric-offset' % m,
+                                                 'what': 'parse_item(%s): a numeric jump / branch operand is wrapped in %%offset (taken as an address)' % m}))
+                    else:
+                        ok, why = False, 'operand %s is %r, not the expression of the token written there' % (r, a)
                 elif a is not t:
                     ok, why = False, 'operand %s is not the token written in that position' % r
             if not P.same_line_obj(item.fields.get('line'), line):
